@@ -58,6 +58,8 @@ def scripted_input(answers, log):
             log.append((prompt, None))
             raise NoMoreAnswers(prompt)
         log.append((prompt, a))
+        if a == "<EOF>":
+            raise EOFError("EOF when reading a line")  # stdin is closed / at end of file: no answer at all
         return a
 
     builtins.input = fake
